@@ -102,7 +102,7 @@ func floatsCheck(c *h.Ctx) {
 			report(idFloat32, zed.EncodeFloat32(float32(f)))
 		}
 	}
-	n := c.N(3000, 200000)
+	n := c.N(2000, 200000)
 	for i := 0; i < n; i++ {
 		var b4 [4]byte
 		binary.LittleEndian.PutUint32(b4[:], c.Rng.Uint32())
